@@ -1,7 +1,7 @@
 (* C04 — Precedence, associativity and parentheses determine expression structure.
    Property theorems only; proofs are in Proofs/LRcert.v (structure) and Proofs/LRvalue.v (values).
    The LALR tables, productions and precedence are Gen/Grammar.v, regenerated from the live ply parser on every run. *)
-From HX Require Import Model.Base Model.Lexer Model.Value Model.Operators Model.Interp Proofs.LRcert Proofs.LRvalue.
+From HX Require Import Model.Base Model.Lexer Model.Value Model.Operators Model.Interp Proofs.LRcert Proofs.LRvalue Proofs.LRfull Proofs.ParensFull.
 From Coq Require Import Lia.
 Open Scope Z_scope.
 
@@ -62,6 +62,20 @@ Example C04_examples :
   wp (Bin Minus (Atom [49]) (Bin Mult (Neg (Atom [50])) (Atom [51]))).
 Proof. repeat split; try (vm_compute; reflexivity); vm_compute; lia. Qed.
 
+
+(* ---------- the whole reference grammar (Proofs/LRfull.v): atoms may be numbers in every literal form, text, error
+   literals, variables, cells, ranges, calls with any arguments and separators, array literals ---------- *)
+Theorem C04_structure_over_the_whole_grammar : forall h e, xwp e ->
+  forall st rest q, In (top_state st) es_list -> goto_E (top_state st) = Some q -> xenter_ok q e -> xfollow_ok e (la rest) ->
+    reachle h (xsteps e) (st, xtoks e ++ rest) (snd (xval h e)) (tgt (fun v => ((q, SVval v) :: st, rest)) (fst (xval h e))).
+Proof. exact lr_runs_expr. Qed.
+Theorem C04_parentheses_do_not_change_the_value : forall h e, xval h (xstrip e) = xval h e.
+Proof. exact parentheses_do_not_change_the_value. Qed.
+Theorem C04_same_tree_same_outcome : forall h e e' s s', xstrip e = xstrip e' ->
+  s <> [] -> lex s = LexOk (xtoks e) -> xwp e -> s' <> [] -> lex s' = LexOk (xtoks e') -> xwp e' ->
+  parse_formula h s = parse_formula h s'.
+Proof. exact same_tree_same_outcome. Qed.
+
 Print Assumptions C04_certificate.
 Print Assumptions C04_precedence_is_usual.
 Print Assumptions C04_parses_tree.
@@ -70,3 +84,5 @@ Print Assumptions C04_parse_formula_value.
 Print Assumptions C04_renderings_wellformed.
 Print Assumptions C04_renderings_agree.
 Print Assumptions C04_exact_integer_value.
+Print Assumptions C04_structure_over_the_whole_grammar.
+Print Assumptions C04_same_tree_same_outcome.
